@@ -135,6 +135,16 @@ pub fn programs(tier: Tier) -> ProgramSet {
             out.push(Program { idx: 0, label: format!("{} [custom error type mentioning T]", e.label), k: e.k + 1, spec, aux: json!({"generic_err": true}), source });
         }
     }
+    // a DISABLED variant claims nothing: an enabled variant declared after it accepts the same name
+    for custom in [true, false] {
+        let mut spec = EnumSpec::base(3);
+        spec.variants[0].disabled = true;
+        spec.variants[0].serialize = vec!["lz".into()];
+        spec.variants[1].serialize = vec!["lz".into(), "lz4".into()];
+        spec.parse_err = custom;
+        let source = render(&spec);
+        out.push(Program { idx: 0, label: format!("B3 + v0: disabled + serialize=\"lz\", v1.serialize=[\"lz\", \"lz4\"] [{}]", if custom { "custom error" } else { "standard error" }), k: 3, spec, aux: json!(null), source });
+    }
     // nothing to match at all: an enum without variants, and enums whose variants are all disabled - every input is a miss
     for (n, label) in [(0usize, "N=0 (no variants)"), (1, "N=1, the variant disabled"), (3, "N=3, every variant disabled")] {
         for custom in [true, false] {
